@@ -91,6 +91,35 @@ def run(ck: Check):
                 if rng.random() < 0.3:
                     ops.insert(rng.randrange(1, n), "R")
                 do_case(det, cfg, ops, constant=c, kind="constant")
+    # 1b. long constant streams handed over as narrow NumPy scalars (internal counts pass 127 and 255) and as
+    #     np.float64: a constant stream is constant whatever numeric type carries it
+    import numpy as _np
+
+    ck.rule("constant 0/1 streams of 300 values as np.uint8 / np.int8 / np.int64 / np.float64 scalars (default and one generated configuration per detector): silent")
+    for det in ALL:
+        if det.name == "BOCD":
+            continue
+        for cfg in (det.gen_cfg(rng), det.gen_cfg(rng)):
+            for c in (0, 1):
+                for tname, ty in (("np.uint8", _np.uint8), ("np.int8", _np.int8), ("np.int64", _np.int64), ("np.float64", _np.float64)):
+                    try:
+                        d = det.make(cfg)
+                        bad = None
+                        for t in range(300):
+                            d.update(value=ty(c))
+                            if bool(d.drift) or bool(getattr(d, "warning", False)):
+                                bad = t
+                                break
+                    except Exception as e:  # noqa: BLE001
+                        ck.violation(dict(clause="raises", detector=det.name, error=type(e).__name__, input_type=tname), dict(what="update raised on a constant 0/1 stream of NumPy scalars", detector=det.name, config=cfg, value=c, input_type=tname, error=repr(e)))
+                        continue
+                    ck.case(dict(detector=det.name, config=cfg, kind="constant-typed", value=c, input_type=tname), nontrivial=False, key=repr((det.name, cfg, c, tname)))
+                    ck.count("typed_constant_runs")
+                    if bad is not None:
+                        s_ = sig(det, cfg, "constant")
+                        s_["value_positive"] = bool(c > 0)
+                        s_["input_type"] = tname
+                        ck.violation(s_, dict(what="alarm on a constant stream handed over as NumPy scalars", detector=det.name, config=cfg, value=c, input_type=tname, step=bad))
     # 2. random structured streams with resets
     ck.rule("random structured streams (regime shifts, bursts, ramps, ties) with resets, per detector; non-trivial = an alarm or a reset occurs")
     for det in ALL:
